@@ -526,6 +526,11 @@ class Executor(object):
         def k(s, c):
             t = self.truth(s, c)
             if s.spec:
+                ts = z3.simplify(t)
+                if z3.is_true(ts):
+                    return [(s, self.ev1(s, node.body))]
+                if z3.is_false(ts):
+                    return [(s, self.ev1(s, node.orelse))]
                 a = self.ev1(s, node.body)
                 b = self.ev1(s, node.orelse)
                 return [(s, ite(t, a, b))]
@@ -538,7 +543,15 @@ class Executor(object):
     def ev_BoolOp(self, st, node):
         is_and = isinstance(node.op, ast.And)
         if st.spec:
-            vals = [self.ev1(st, v) for v in node.values]
+            vals = []
+            for vn in node.values:
+                v = self.ev1(st, vn)
+                vals.append(v)
+                # concretely decided operand: Python would not evaluate the rest (which may be ill-typed, e.g.
+                # `x is not None and x[0] > 0` with x == None)
+                t = z3.simplify(self.truth(st, v))
+                if (is_and and z3.is_false(t)) or (not is_and and z3.is_true(t)):
+                    break
             if all(isinstance(v, VBool) for v in vals):
                 ts = [v.t for v in vals]
                 return [(st, VBool(z3.And(ts) if is_and else z3.Or(ts)))]
@@ -894,6 +907,8 @@ class Executor(object):
                 return [(st, self.ev1(o, node.args[0]))]
             if f == 'implies':
                 a = self.ev1(st, node.args[0])
+                if z3.is_false(z3.simplify(self.truth(st, a))):
+                    return [(st, VBool(True))]
                 b = self.ev1(st, node.args[1])
                 return [(st, VBool(z3.Implies(self.truth(st, a), self.truth(st, b))))]
             if f == 'iff':
